@@ -273,12 +273,19 @@ def extra_units(tier):
 
 
 def units(tier):
-    return space.standard_units(tier) + extra_units(tier)
+    out = space.standard_units(tier)
+    if tier != 'thorough':
+        # the quick standard space has EXPLICIT and AUTOMATIC TAGS only; tags are this property's subject,
+        # so the same layers are also explored under IMPLICIT TAGS (the thorough space already has them)
+        env = (('IMPLICIT', False),)
+        out += list(space.l0c_units(False, envs=env)) + list(space.l1_units(2, 2, envs=env))
+        out += list(space.l2_units(False, envs=env)) + list(space.family_units(envs=env))
+    return out + extra_units(tier)
 
 
 def bounds(tier):
     return {'tier': tier,
-            'layers': ('L0,L0c,L1(W2,K2),L2,families under EXPLICIT+AUTOMATIC' if tier == 'quick'
+            'layers': ('L0,L0c,L1(W2,K2),L2,families under EXPLICIT,AUTOMATIC,IMPLICIT' if tier == 'quick'
                        else 'L0,L0c,L1(W3,K2),L2,families under 5 environments')
             + '; X:tagnum/elemtag/membertag/setorder/setchoice/root2/choice/auto1/default under '
             + ('EXPLICIT,IMPLICIT,AUTOMATIC' if tier == 'quick' else 'EXPLICIT,IMPLICIT,AUTOMATIC,EXPLICIT+EI,AUTOMATIC+EI'),
